@@ -260,7 +260,7 @@ def rule_occurrence(ck, F, X):
     CE = og.CallExpander(F)
     live = scans.api_reachable(F.lib)
     sites = [s for s in og.field_summaries(F, "model::field::Field") if "try_from_node" in s[0] and s[0] in live]
-    ck.floor("R2", "Field constructor sites", len(sites), 4)
+    ck.floor("R2", "Field constructor sites", len(sites), 2)
     # wrapper selection and attribute flag from the field emitter: the member / attribute templates (one per branch in the
     # canonical output grammar) and the conditions each is emitted under
     member_vars, attr_vars = [], []
@@ -413,7 +413,7 @@ def rule_traversal(ck, F, X):
                     continue   # `v.clear(); v.extend(base.fields.iter().cloned())` is `v.clone_from(&base.fields)`
                 if "Vec<model::field::Field>" in rty:
                     ck.violation("R3", f"{short}:vec-op:{x['name']}", Hh.sp(x), f"{short}: the field list is modified with `{x['name']}`: declaration order/content is not preserved", fn=short)
-    ck.floor("R3", "child loops in the flattening functions", n_loops, 4)
+    ck.floor("R3", "child loops in the flattening functions", n_loops, 2)
 
 
 def _iter_source(nb, for_node):
